@@ -10,13 +10,13 @@ META = {
     "level": "proof",
     "technique": "Coq theorems over an executable model of gencommon's FindInterface pipeline (parameter naming for all parameter lists, embedded-method merge for all embedding trees incl. interfaces embedding interfaces, fresh names for on-demand imports, type-reference rendering and import activation for all type ASTs) + translator ties (params.go/method.go, ImportString, the merge loop of interface.go regenerated as Gallina and proved equal to the model for all arguments each run, robust to renames/helper extraction/loop forms; basic-kind table) + a build farm: generated packages run through the real FindInterface, every observation judged inside Coq against model and specification, the rendered interface compiled against the original type",
     "design_ref": "DESIGN.md §4 C19",
-    "level_text": "Proof: IFace*Proofs.v show for the model of params.go/method.go/interface.go/imports.go (current tree) that parameter names are pairwise distinct valid identifiers keeping the user's names (all parameter lists, any length, any mix of unnamed/_/user-chosen names incl. arg0/ret0/ctx/err), that the collected method set is exactly own + promoted-and-unambiguous methods with the private filter (interfaces that embed interfaces: their method set is a set, shared methods are one method), that the imports FindInterface returns bind pairwise distinct names none of which is a package-level name (proved from calcImports/addNamed, not assumed), and that every rendered type reference denotes the original type under those imports, which contain every qualifier used (Props/C19.v, 31 theorems, no axioms). Translator tie: the parameter-naming functions, ImportString, the embedded-method merge loop and the listing condition are regenerated from the source each run and proved equal to the model for all arguments. The rest of the model is tied by a farm of generated packages per the property's quantifier; compiler acceptance of the rendered interface is observed, not proved (partial).",
+    "level_text": "Proof: IFace*Proofs.v show for the model of params.go/method.go/interface.go/imports.go (current tree) that parameter names are pairwise distinct valid identifiers keeping the user's names (all parameter lists, any length, any mix of unnamed/_/user-chosen names incl. arg0/ret0/ctx/err), that the collected method set is exactly own + promoted-and-unambiguous methods with the private filter (interfaces that embed interfaces: their method set is a set, shared methods are one method), that the imports FindInterface returns bind pairwise distinct names none of which is a package-level name (proved from calcImports/addNamed, not assumed), and that every rendered type reference denotes the original type under those imports, which contain every qualifier used (Props/C19.v, no axioms); the rendered TEXT parses back to the reference it was printed from (Gallina parser, round-trip theorem) and the parsed tree denotes the original type. Translator tie: the parameter-naming functions, ImportString, calcImports' loop, unusedName, addNamed, every case of ExtractTypeRef, ParamsFromSignatureTuple, MethodFromSignature, Declarations/TypeNames/Signature (closed over their mutual recursion: tie_extract), the own-methods loop, the embedded-method merge loop and the listing condition are regenerated from the source each run and proved equal to the model for all arguments. The rest (the field traversal of namedTypeToInterface, GetActive) is tied by a farm of generated packages per the property's quantifier; compiler acceptance of the rendered interface is observed, not proved (partial).",
     "level_note": "Trusted: Coq 8.16.1 kernel + vm_compute; hand-written model tied by correspondence only; go/types (type ASTs, TypeImplements oracle bits, method set cross-check), go/packages, the Go compiler as the judge of 'compiles and fits'; harness generator. No axioms.",
 }
 
 TRUSTED = [
     "Coq 8.16.1 kernel and VM (vm_compute); no native_compute; no axioms",
-    "hand-written model coq/theories/IFaceModel.v of gencommon/{params,method,imports,interface}.go; tied by translator (T) for parameter naming, ImportString, the merge loop and the listing condition, by correspondence (C) for the rest (calcImports, addNamed/unusedName, ExtractTypeRef, the traversal of namedTypeToInterface)",
+    "hand-written model coq/theories/IFaceModel.v of gencommon/{params,method,imports,interface}.go; tied by translator (T) for parameter naming, ImportString, calcImports' loop, unusedName, addNamed, ExtractTypeRef, ParamsFromSignatureTuple, MethodFromSignature, Declarations/TypeNames/Signature, the own-methods loop, the merge loop and the listing condition, by correspondence (C) for the rest (the field traversal and final filter of namedTypeToInterface, GetActive)",
     "go/types and golang.org/x/tools/go/packages: the type ASTs, the per-parameter 'implements context.Context / error' bits (gencommon.TypeImplements) and the method set of *T are read off them; the model's formalisation of the selector rule (go_ms) is compared with go/types on every case",
     "the Go 1.23 compiler: acceptance of `type Rendered interface{...}; var _ Rendered = (*T)(nil)` is observed (partial: no Gallina model of the compiler)",
     "translators harness/cmd/xlate_params (go/parser; subset and reference-threading convention in its header; primitives coq/theories/IFaceGenPrims.v incl. the loop bound loop_fuel) and harness/cmd/xlate_basic_kinds; both validated by the correspondence run",
@@ -128,7 +128,7 @@ def run(ctx):
         return
     quick = ctx.tier == "quick"
     runs = [("corpus", ["-mode", "corpus"]),
-            ("random", ["-mode", "random", "-n", 34 if quick else 600]),
+            ("random", ["-mode", "random", "-n", 24 if quick else 600]),
             ("shapes", ["-mode", "shapes", "-n", 8 if quick else 240])]
     cdir = os.path.join(vlib.VERIF, "corpus", "C19")
     descs = []
